@@ -16,6 +16,7 @@ package partition
 
 import (
 	"context"
+	"fmt"
 	"github.com/logrange/logrange/pkg/model"
 	"github.com/logrange/range/pkg/records"
 	"github.com/logrange/range/pkg/utils/bytes"
@@ -32,8 +33,14 @@ type (
 		minTs, maxTs int64
 		// tsSet is true when minTs and maxTs hold values of events seen (0 is a valid timestamp)
 		tsSet bool
+
+		// maxRecSize is the maximum size of a record that can be read back, 0 - not limited
+		maxRecSize int64
 	}
 )
+
+// ErrRecordTooBig is returned by Write when a record exceeds the maximum record size
+var ErrRecordTooBig = fmt.Errorf("the record size exceeds the maximum record size")
 
 func (iw *iwrapper) Next(ctx context.Context) {
 	iw.read = false
@@ -60,6 +67,10 @@ func (iw *iwrapper) Get(ctx context.Context) (records.Record, error) {
 	iw.tsSet = true
 
 	sz := lge.WritableSize()
+	if iw.maxRecSize > 0 && int64(sz) > iw.maxRecSize {
+		// the chunk reader would not be able to read the record back
+		return nil, ErrRecordTooBig
+	}
 	if cap(iw.rec) < sz {
 		iw.pool.Release(iw.rec)
 		iw.rec = iw.pool.Arrange(sz)
